@@ -112,6 +112,58 @@ void h_ondata(void)
   }
 }
 
+/* ---- onClose step 6, first part (block target): mark the session's buffer closed, or leave a closed tombstone for a late receiver;
+ * forget the read mode. From C03 "report peer-closed only after every byte that arrived before the close has been returned":
+ * the close must not touch the buffered bytes - it only raises the (sticky) closed flag that receiveSync reports once drained.
+ * The rest of the critical section (GC of stale tombstones of OTHER sessions) is not under contract. ---- */
+void h_onclose_tombstone(void)
+{
+  Impl impl; SyncReceiveBuffer wbuf, obuf, fresh; Impl *self = &impl; G_impl = self; G_fresh = &fresh; G_made = 0;
+  SessionId W = nondet_u64(), sid = nondet_u64();
+  iora_engine eng; impl.engine = &eng;
+  impl.syncMutex.held = 0; impl.callbackMutex.held = 0;
+  impl.readModes.guard = &impl.syncMutex; impl.receiveBuffers.guard = &impl.syncMutex; impl.pendingConnects.guard = &impl.syncMutex;
+  impl.readModes.wkey = W; impl.receiveBuffers.wkey = W;
+  impl.receiveBuffers.wval = &wbuf; impl.receiveBuffers.other = &obuf;
+  wbuf.guard = &impl.syncMutex; wbuf.data.guard = &impl.syncMutex; obuf.guard = &impl.syncMutex; obuf.data.guard = &impl.syncMutex;
+  __CPROVER_assume(impl.readModes.wval <= ReadMode_Disabled);
+  impl.shuttingDown = nondet_bool(); impl.readModes.present = nondet_bool(); impl.receiveBuffers.present = nondet_bool();
+  wbuf.hasData = nondet_bool(); wbuf.closed = nondet_bool(); wbuf.flushing = nondet_bool(); wbuf.overflow = nondet_bool();
+  __CPROVER_assume(wbuf.cv.n_all < 1000);
+  G_arrived = nondet_size_t(); __CPROVER_assume(G_arrived <= STREAM_LIMIT);
+  __CPROVER_assume(SRB_INV(&wbuf, G_arrived, impl.shuttingDown, impl.config.maxSyncReceiveBuffer));
+  Impl impl0 = impl; SyncReceiveBuffer w0 = wbuf; bool present0 = impl.receiveBuffers.present;
+
+  Impl_onClose_tombstone(self, sid);
+  IORA_CANARY("h_onclose_tombstone: returns");
+  __CPROVER_assert(impl.shuttingDown == impl0.shuttingDown && impl.activeReceives == impl0.activeReceives && impl.activeFlushes == impl0.activeFlushes, "F1 teardown state untouched");
+  if (sid != W)
+  {
+    IORA_CANARY("h_onclose_tombstone: other session");
+    __CPROVER_assert(SAME_BUF(wbuf, w0) && impl.receiveBuffers.present == present0 && impl.receiveBuffers.wval == &wbuf && impl.readModes.present == impl0.readModes.present && impl.readModes.wval == impl0.readModes.wval,
+                     "F3 buffer, entry and mode of every other session are untouched by this part");
+    return;
+  }
+  __CPROVER_assert(!impl.readModes.present, "K1 the read mode of the closed session is forgotten");
+  __CPROVER_assert(impl.receiveBuffers.present, "K2 an entry exists afterwards (a late receiveSync finds the close instead of waiting forever)");
+  if (present0)
+  {
+    IORA_CANARY("h_onclose_tombstone: buffer exists");
+    __CPROVER_assert(impl.receiveBuffers.wval == &wbuf && G_made == 0 && wbuf.closed, "K3 existing buffer: closed is set");
+    __CPROVER_assert(wbuf.data.lo == w0.data.lo && wbuf.data.hi == w0.data.hi && wbuf.hasData == w0.hasData && wbuf.overflow == w0.overflow && wbuf.waiters == w0.waiters && wbuf.flushing == w0.flushing,
+                     "K4 ... and NOTHING else: the bytes that arrived before the close stay buffered (drain before EOF), overflow stays");
+    __CPROVER_assert(wbuf.cv.n_all == w0.cv.n_all + 1, "K5 every parked reader is notified (notify_all)");
+    __CPROVER_assert(SRB_INV(&wbuf, G_arrived, impl.shuttingDown, impl.config.maxSyncReceiveBuffer), "INV monitor invariant re-established");
+  }
+  else
+  {
+    IORA_CANARY("h_onclose_tombstone: tombstone");
+    __CPROVER_assert(impl.receiveBuffers.wval == &fresh && G_made == 1 && fresh.closed && fresh.data.lo == fresh.data.hi && !fresh.hasData && !fresh.overflow && fresh.waiters == 0 && !fresh.flushing,
+                     "K6 no buffer: a closed, empty tombstone is registered");
+    __CPROVER_assert(SAME_BUF(wbuf, w0), "F4 nothing else is touched");
+  }
+}
+
 #ifdef IORA_SEARCH
 /* SEARCH (bounded; only used to obtain a concrete call sequence for REPLAY): a fresh Sync session, up to 3 chunks of 1..8 bytes,
  * buffer bound MAX <= 8. The same shim obligations (SL1/SL2) and INV are checked after every call. */
